@@ -24,6 +24,9 @@ Total(d) == d.term.k \in {"return", "parse_error", "config_error", "skipped"}   
 TotalWhy(d) ==
   IF ~Total(d) THEN "transform:" \o d.term.k \o (IF "phase" \in DOMAIN d.term THEN ":" \o d.term.phase ELSE "")
   ELSE IF d.term.k # "return" THEN ""
+  \* the tree handed on makes the passes that always follow (hygiene, fixer, code generation) panic: a crash all the same,
+  \* whether or not a diagnostic was reported first
+  ELSE IF "unprintable" \in DOMAIN d /\ d.unprintable THEN "output-tree-crashes-the-next-pass"
   ELSE IF ~d.run2_same THEN "second-run-differs"
   ELSE IF ~d.fresh_same THEN "fresh-process-run-differs"
   ELSE ""
